@@ -161,6 +161,8 @@ class MX:
 
 
 def matmul(x, y):
+    if isinstance(x, MX) and isinstance(y, HCat):
+        return HCat([matmul(x, p) for p in y.parts])
     if not isinstance(x, MX) or not isinstance(y, MX):
         raise Unsupported("UNSUPPORTED matrix product with a non-symbolic operand")
     if x.is_vec:
@@ -170,6 +172,61 @@ def matmul(x, y):
     if y.is_vec:
         return MX("mulVec", (x, y), (x.shape[0],), col=y.col)
     return MX("mul", (x, y), (x.shape[0], y.shape[1]))
+
+
+class HCat:
+    """several symbolic matrices with the same rows side by side (`np.concatenate(..., axis=-1)`): a right-hand side with
+    several column blocks.  Only what distributes over the blocks is supported: a matrix product / linear solve from the left,
+    and taking the blocks apart again at the same boundaries (`np.split`, `np.hsplit`, column slices)."""
+    __array_priority__ = 3000
+    __array_ufunc__ = None
+
+    def __init__(self, parts):
+        self.parts = list(parts)
+        rows = {p.shape[0] for p in self.parts}
+        if len(rows) != 1 or any(p.is_vec for p in self.parts):
+            raise Unsupported("UNSUPPORTED concatenation of blocks with different row counts / of vectors")
+        self.shape = (self.parts[0].shape[0], sum(p.shape[1] for p in self.parts))
+        self.ndim = 2
+
+    def _bounds(self):
+        out, c = [], 0
+        for p in self.parts:
+            out.append((c, c + p.shape[1]))
+            c += p.shape[1]
+        return out
+
+    def split(self, cuts):
+        cuts = [int(c) for c in cuts]
+        if cuts != [b for _, b in self._bounds()][:-1]:
+            raise Unsupported(f"UNSUPPORTED split of concatenated blocks at {cuts} (block boundaries {self._bounds()})")
+        return list(self.parts)
+
+    def __getitem__(self, key):
+        if isinstance(key, tuple) and len(key) == 2 and key[0] in (slice(None), Ellipsis) and isinstance(key[1], slice) and key[1].step in (None, 1):
+            a = 0 if key[1].start is None else key[1].start
+            b = self.shape[1] if key[1].stop is None else key[1].stop
+            a, b = (a + self.shape[1] if a < 0 else a), (b + self.shape[1] if b < 0 else b)
+            for (lo, hi), p in zip(self._bounds(), self.parts):
+                if (lo, hi) == (a, b):
+                    return p
+        raise Unsupported(f"UNSUPPORTED indexing [{key!r}] of concatenated blocks")
+
+    def __bool__(self):
+        raise Unsupported("UNSUPPORTED truth value of a symbolic array in the kernel")
+
+    def __rmatmul__(self, o):
+        return matmul(o, self)
+
+
+def _has_sym(x):
+    if isinstance(x, (MX, HCat)):
+        return True
+    if isinstance(x, (list, tuple)):
+        return any(_has_sym(y) for y in x)
+    if isinstance(x, dict):
+        return any(_has_sym(y) for y in x.values())
+    return False
 
 
 def _dim(k):
@@ -187,6 +244,9 @@ class _Linalg:
 
     @staticmethod
     def solve(a, b):
+        if isinstance(b, HCat):
+            ia = _Linalg.inv(a)
+            return HCat([matmul(ia, p) for p in b.parts])
         return matmul(_Linalg.inv(a), b)
 
     def __getattr__(self, name):
@@ -253,6 +313,31 @@ class _NP:
         raise Unsupported("UNSUPPORTED np.squeeze use")
 
     @staticmethod
+    def concatenate(xs, axis=0, **kw):
+        xs = list(xs)
+        if axis in (-1, 1) and xs and all(isinstance(x, MX) and not x.is_vec for x in xs):
+            return xs[0] if len(xs) == 1 else HCat(xs)
+        raise Unsupported("UNSUPPORTED np.concatenate use in the kernel")
+
+    @staticmethod
+    def hstack(xs, **kw):
+        return _NP.concatenate(xs, axis=1)
+
+    @staticmethod
+    def split(x, cuts, axis=0):
+        if isinstance(x, HCat) and axis in (-1, 1) and not isinstance(cuts, int):
+            return x.split(list(cuts))
+        if isinstance(x, MX) and not x.is_vec and axis in (-1, 1) and not isinstance(cuts, int) and len(list(cuts)) == 0:
+            return [x]
+        raise Unsupported("UNSUPPORTED np.split use in the kernel")
+
+    array_split = split
+
+    @staticmethod
+    def hsplit(x, cuts):
+        return _NP.split(x, cuts, axis=1)
+
+    @staticmethod
     def broadcast_to(x, shape):
         if isinstance(x, MX) and tuple(shape) == _NP.shape(x):
             return x
@@ -260,6 +345,8 @@ class _NP:
 
     @staticmethod
     def shape(x):
+        if isinstance(x, HCat):
+            return x.shape
         if isinstance(x, MX):
             return x.shape + ((1,) if x.is_vec and x.col else ())
         raise Unsupported("UNSUPPORTED np.shape argument")
@@ -275,7 +362,17 @@ class _NP:
         return x
 
     def __getattr__(self, name):
-        raise Unsupported(f"UNSUPPORTED np.{name} in the kernel")
+        # a numpy function applied to concrete values only (shapes, counts, index arithmetic) is plain execution
+        import numpy as real
+        f = getattr(real, name, None)
+        if f is None or not callable(f):
+            raise Unsupported(f"UNSUPPORTED np.{name} in the kernel")
+
+        def concrete_only(*a, **kw):
+            if _has_sym(a) or _has_sym(kw):
+                raise Unsupported(f"UNSUPPORTED np.{name} of a symbolic array in the kernel")
+            return f(*a, **kw)
+        return concrete_only
 
 
 def _module(repo):
